@@ -143,6 +143,16 @@ def run(code, env, world=None, max_steps=20000, max_paths=4000, feas_ms=3000, st
                         raise Halt("invalid", w, None)
                     pc = t
                 else:
+                    if name in ("mload", "mstore") and conc(args[0]) is None:
+                        # a memory access at a symbolic address that can take only a few values under the path condition
+                        # (an index into a small array): split the path per address - exact, and keeps memory concrete
+                        vals = Mx.enumerate_values(args[0], w.pc, limit=8, timeout_ms=3000)
+                        if vals:
+                            for av in vals[1:]:
+                                st2 = list(stack) + [a if k else BV(av) for k, a in reversed(list(enumerate(args)))]
+                                work.append((pc, tuple(st2), w.assume(args[0] == av), steps))
+                            w = w.assume(args[0] == vals[0])
+                            args[0] = BV(vals[0])
                     v, w = exec_op(name, args, w)
                     if isinstance(v, tuple) and v[0] == "guard":
                         bad = w.assume(v[1])
